@@ -29,6 +29,7 @@ import AutosarVerif.Lemmas.Merge
 import AutosarVerif.Lemmas.MergeUnion
 import AutosarVerif.Lemmas.MergeOrder
 import AutosarVerif.Lemmas.LoadMerge
+import AutosarVerif.Lemmas.MergeKeeps
 
 namespace AV.C09
 
@@ -126,5 +127,20 @@ theorem C09_witness_same_path_different_kind : type_of% @AV.W.MU.OrdEx3.twice :=
 /-- every element of the merged content comes from the model or from the new file (unconditional, error path included); with `C09_merge_loses_nothing` the model's elements are all kept
 `theorem mergeElement_ids_sub (fver : Nat → Option Nat) (newFile minVerB : Nat) (fuel : Nat) : ∀ (ha : Hdr) (ka : Items) (files : List Nat) (kb : Items) (x : Nat), x ∈ (mergeElement S V fver newFile minVerB fuel ha ka files kb).1.ids → x ∈ ka.ids ∨ x ∈ kb.ids` -/
 theorem C09_merge_invents_nothing : type_of% @AV.W.mergeElement_ids_sub := @AV.W.mergeElement_ids_sub
+
+
+/-! ### added at the end of the third session (proof pack LM3): restated by name
+(`type_of%` keeps the statement identical to the lemma; the signature is quoted in the comment) -/
+
+/-- **"keeps each file's content"**: every element of the model's content is still there after `merge_element` - also on its error path - with the same name, type, attributes, comment, parent and the same text items directly below it; only `files` fields change and elements of the new file are added
+`theorem mergeElement_keeps_proj (fver : Nat → Option Nat) (newFile minVerB : Nat) (fuel : Nat) (ha : Hdr) (ka : Items) (files : List Nat) (kb : Items) (hdis : ∀ x ∈ ka.ids, x ∉ kb.ids) (x : Nat) (hx : x ∈ ka.ids) : ((mergeElement S V fver newFile minVerB fuel ha ka files kb).1.find x).map (fun c => (c.1.name, c.1.ety, c.1.attrs, c.1.comment, c.1.parent, c.2.textsOf)) = (ka.find x).map (fun c => (c.1.name, c.1.ety, c.1.attrs, c.1.comment, c.1.parent, c.2.textsOf))` -/
+theorem C09_merge_keeps_every_element_of_the_model_as_it_was : type_of% @AV.W.mergeElement_keeps_proj := @AV.W.mergeElement_keeps_proj
+
+/-- erasing the elements of the new file from the result gives back the model's content, file sets aside
+`theorem mergeElement_restrict (fver : Nat → Option Nat) (newFile minVerB : Nat) (fuel : Nat) (ha : Hdr) (ka : Items) (files : List Nat) (kb : Items) (hdis : ∀ x ∈ ka.ids, x ∉ kb.ids) : ((mergeElement S V fver newFile minVerB fuel ha ka files kb).1.dropIds kb.ids.contains).mapHdrs Hdr.noFiles = ka.mapHdrs Hdr.noFiles` -/
+theorem C09_merge_result_without_the_new_elements_is_the_model : type_of% @AV.W.mergeElement_restrict := @AV.W.mergeElement_restrict
+
+/-- `theorem mergeElement_emb (P : Nat → Prop) (fver : Nat → Option Nat) (newFile minVerB : Nat) (fuel : Nat) : ∀ (ha : Hdr) (ka : Items) (files : List Nat) (kb : Items), (∀ y ∈ kb.ids, P y) → Emb P ka (mergeElement S V fver newFile minVerB fuel ha ka files kb).1` -/
+theorem C09_merge_embeds_the_model : type_of% @AV.W.mergeElement_emb := @AV.W.mergeElement_emb
 
 end AV.C09
